@@ -224,7 +224,7 @@ def history : List (Op Nat) :=
    .read (.user 0) (.content ⟨[cr "Cc" 1, cr "Ab" 2], none⟩), .read (.user 0) (.content ⟨[cr "Dd" 1], some (.noUcell "Bad")⟩),
    .add .builtin (.obj 1), .list (.user 0), .free 0, .free 1, .afree 0]
 
-theorem shipped_sorted : SortedNames shipped := by
+private theorem shipped_sorted : SortedNames shipped := by
   unfold SortedNames shipped cr
   decide
 
@@ -246,7 +246,7 @@ def Held.isLive {β : Type} : Held β → Bool
   | .live _ => true
   | _ => false
 
-theorem not_live_of_all {β : Type} {l : List (Held β)} (h : l.all (fun p => !Held.isLive p) = true) :
+private theorem not_live_of_all {β : Type} {l : List (Held β)} (h : l.all (fun p => !Held.isLive p) = true) :
     ∀ p ∈ l, ∀ v, p ≠ .live v := by
   intro p hp v hv
   have := List.all_eq_true.mp h p hp
